@@ -26,6 +26,9 @@ use sc62015_core::{CoreRuntime, KeyboardMatrix, TimerContext};
 use serde_json::{json, Value};
 use std::collections::HashMap;
 
+#[path = "machine_c07.rs"]
+mod c07x;
+
 const IMR: u32 = 0xFB;
 const ISR: u32 = 0xFC;
 
@@ -473,6 +476,7 @@ pub fn handle(verb: &str, req: &Value, st: &mut State) -> Value {
                 _ => json!({"ok": true, "obs": m.observe()}),
             }
         }
+        v if v.starts_with("c07_") => c07x::handle(v, req),
         _ => err(format!("machine.{verb} not implemented")),
     }
 }
